@@ -120,6 +120,7 @@ pub struct World {
     /// every RRSIG the honest signer ever produced: (folded owner, canonical RRSIG RDATA)
     pub genuine_sigs: Mutex<HashSet<(Name, Vec<u8>)>>,
     resp_cache: Mutex<HashMap<(Name, u16, bool), Resp>>,
+    auth_cache: Mutex<HashMap<(usize, Name, u16, bool), Resp>>,
     verified_sigs: Mutex<HashMap<(Name, Vec<u8>), bool>>,
 }
 
@@ -128,7 +129,7 @@ const TTL_NEG: u32 = 300;
 
 impl World {
     pub fn new(truth: Truth) -> World {
-        World { truth, sig_cache: Mutex::new(HashMap::new()), genuine_sigs: Mutex::new(HashSet::new()), resp_cache: Mutex::new(HashMap::new()), verified_sigs: Mutex::new(HashMap::new()) }
+        World { truth, sig_cache: Mutex::new(HashMap::new()), genuine_sigs: Mutex::new(HashSet::new()), resp_cache: Mutex::new(HashMap::new()), auth_cache: Mutex::new(HashMap::new()), verified_sigs: Mutex::new(HashMap::new()) }
     }
 
     fn ttl_of(t: u16) -> u32 {
@@ -539,6 +540,116 @@ impl World {
         let mut seen = HashSet::new();
         recs.retain(|r| seen.insert(r.clone()));
         Resp { rcode, aa: false, recs, kind: kind_label }
+    }
+}
+
+impl World {
+    // ---- one authoritative server (iterative answers; used by the validating-recursor point) ----
+
+    /// What an authoritative-only server for zone `zi` answers to (qname, qtype): data it is
+    /// authoritative for (RRSIGs with DO), in-zone CNAME chains, referrals at zone cuts (NS, DS +
+    /// RRSIG(DS) or the NSEC / NSEC3 records proving that there is no DS, glue), negative answers
+    /// with SOA + denial, REFUSED for names outside the zone. Never crosses a zone cut, never
+    /// recurses. Built from the same reference data / signer as `honest`; nothing of hickory.
+    pub fn auth(&self, zi: usize, qname: &[Vec<u8>], qtype: u16, dnssec: bool) -> Resp {
+        let key = (zi, fold(qname), qtype, dnssec);
+        if let Some(r) = self.auth_cache.lock().unwrap().get(&key) {
+            return r.clone();
+        }
+        let r = self.auth_uncached(zi, &key.1, qtype, dnssec);
+        self.auth_cache.lock().unwrap().insert(key, r.clone());
+        r
+    }
+
+    fn auth_uncached(&self, zi: usize, q: &Name, qtype: u16, dnssec: bool) -> Resp {
+        let z = &self.truth.zones[zi];
+        if !is_subdomain(q, &z.apex) {
+            return Resp { rcode: 5, aa: false, recs: Vec::new(), kind: "refused".into() };
+        }
+        let signed = z.spec.signed && dnssec;
+        let o = ref_auth(&z.full, q, qtype);
+        let mut kind_label = o.kind.as_str().to_string();
+        if let Some(ce) = o.chain_end {
+            kind_label = format!("{}>{}", kind_label, ce.as_str());
+        }
+        let mut recs: Vec<Rec> = Vec::new();
+        let mut rcode = 0u8;
+        let mut aa = true;
+        let mut last_negative: Option<&refzone::Step> = None;
+        for (si, st) in o.steps.iter().enumerate() {
+            let wild = st.kind.is_wildcard();
+            let wl = if wild { st.closest_encloser.as_ref().map(|ce| ce.len() as u8) } else { None };
+            match st.kind {
+                Kind::Answer | Kind::WildcardAnswer => {
+                    let rds: Vec<Vec<u8>> = st.rrs.iter().map(|r| r.2.clone()).collect();
+                    self.push_rrset(&mut recs, SEC_AN, zi, &st.qname, st.rrs[0].1, &rds, wl, signed);
+                }
+                Kind::CnameChain | Kind::WildcardCname => {
+                    let rds: Vec<Vec<u8>> = st.rrs.iter().map(|r| r.2.clone()).collect();
+                    self.push_rrset(&mut recs, SEC_AN, zi, &st.qname, ty::CNAME, &rds, wl, signed);
+                }
+                Kind::Referral if si == 0 => {
+                    // a referral: NS of the cut (never signed), DS + RRSIG(DS) or the proof that there
+                    // is none, glue for name servers at or below the cut
+                    aa = false;
+                    let cut = st.cut.clone().expect("referral has a cut");
+                    let ns: Vec<Vec<u8>> = st.rrs.iter().map(|r| r.2.clone()).collect();
+                    self.push_rrset(&mut recs, SEC_NS, zi, &cut, ty::NS, &ns, None, false);
+                    if signed {
+                        match z.full.rrset(&cut, ty::DS) {
+                            Some(ds) if !ds.is_empty() => self.push_rrset(&mut recs, SEC_NS, zi, &cut, ty::DS, ds, None, true),
+                            _ => {
+                                for (o2, t2, rd2) in self.denial_records(zi, &cut, ty::DS, Kind::Nodata, None, None) {
+                                    self.push_rrset(&mut recs, SEC_NS, zi, &o2, t2, &[rd2], None, true);
+                                }
+                            }
+                        }
+                    }
+                    for rd in &ns {
+                        let target = refzone::cname_target(rd);
+                        if !is_subdomain(&target, &cut) {
+                            continue;
+                        }
+                        // the parent's glue is a copy of the address records the child publishes
+                        let ci = self.truth.zone_of_name(&target);
+                        for t in [ty::A, ty::AAAA] {
+                            if let Some(rds) = self.truth.zones[ci].full.rrset(&target, t) {
+                                self.push_rrset(&mut recs, SEC_AR, zi, &target, t, rds, None, false);
+                            }
+                        }
+                    }
+                }
+                _ => {}
+            }
+            if wild && signed && matches!(st.kind, Kind::WildcardAnswer | Kind::WildcardCname) {
+                for (o2, t2, rd2) in self.denial_records(zi, &st.qname, qtype, st.kind, st.closest_encloser.as_ref(), st.source.as_ref()) {
+                    self.push_rrset(&mut recs, SEC_NS, zi, &o2, t2, &[rd2], None, true);
+                }
+            }
+            if st.kind.is_negative() {
+                last_negative = Some(st);
+            }
+        }
+        if let Some(st) = last_negative {
+            if st.kind == Kind::Nxdomain {
+                rcode = 3;
+            }
+            let soa: Vec<Vec<u8>> = z.full.rrset(&z.apex, ty::SOA).cloned().unwrap_or_default();
+            let mut soa_recs = Vec::new();
+            self.push_rrset(&mut soa_recs, SEC_NS, zi, &z.apex, ty::SOA, &soa, None, signed);
+            for r in soa_recs.iter_mut() {
+                r.ttl = r.ttl.min(TTL_NEG);
+            }
+            recs.extend(soa_recs);
+            if signed {
+                for (o2, t2, rd2) in self.denial_records(zi, &st.qname, qtype, st.kind, st.closest_encloser.as_ref(), st.source.as_ref()) {
+                    self.push_rrset(&mut recs, SEC_NS, zi, &o2, t2, &[rd2], None, true);
+                }
+            }
+        }
+        let mut seen = HashSet::new();
+        recs.retain(|r| seen.insert(r.clone()));
+        Resp { rcode, aa, recs, kind: kind_label }
     }
 }
 
